@@ -764,7 +764,7 @@ def gen_scenario(rng, p, mode="mixed"):
         elif dmode == "mixed":
             delay[k] = rng.choice([0, 0, 20, 300, 1200])
     sc = dict(out=out, panick=pk, delayus=delay, conc=rng.choice([1, 1, 2, 2, 3, 8]), coe=rng.random() < 0.5,
-              cancel="none", cancelu="", cancelus=0, effconc=0, effcoe=False)
+              cancel="none", cancelu="", cancelus=0, hold="", effconc=0, effcoe=False)
     if mode != "ok":
         c = rng.random()
         ii = insts(p)
@@ -778,6 +778,22 @@ def gen_scenario(rng, p, mode="mixed"):
         elif c < 0.25:
             sc["cancel"], sc["cancelus"] = "deadline", rng.randint(1, 500)
     return sc
+
+
+def hold_scenarios(rng, p):
+    """Promptness (C09): a function that certainly starts (no inputs from other tasks, no predicate) is held by
+    the runner; the context is cancelled once it runs; everything else is quick."""
+    cands = []
+    for u, i in insts(p):
+        if u["kind"] in ("ptask", "selem", "melem") or (u["kind"] == "task" and not u["pred"] and all(t in p["params"] for t in u["ins"])):
+            cands.append(str(u["id"]) if i < 0 else "%d:%d" % (u["id"], i))
+    if not cands:
+        return []
+    sc = gen_scenario(rng, p, "ok")
+    sc["hold"] = rng.choice(cands)
+    sc["delayus"] = {}
+    sc["conc"] = max(sc["conc"], 2)
+    return [sc]
 
 
 def fault_scenarios(rng, p):
